@@ -732,7 +732,7 @@ func (w *rawWorld) events() []kit.Event {
 		}})
 	}
 	if len(w.got) > 0 {
-		for _, variant := range []string{"ok", "unknown-pipe", "short-header"} {
+		for _, variant := range []string{"ok", "unknown-pipe", "short-header", "pipe-id-with-high-bit"} {
 			variant := variant
 			evs = append(evs, kit.Event{Name: "reply:" + variant, Run: func() { w.doReply(variant) }})
 		}
@@ -755,6 +755,16 @@ func (w *rawWorld) doReply(variant string) {
 		binary.BigEndian.PutUint32(hdr, (w.ids[0]^w.ids[1])|0x40000000)
 	case "short-header":
 		hdr = hdr[:3]
+	case "pipe-id-with-high-bit":
+		// the routing header has lost its pipe word: what leads now is a request id whose low 31 bits
+		// happen to be the id of a live connection - it names no connection
+		live := w.ids[0]
+		for i, p := range w.pipes {
+			if p.Alive() {
+				live = w.ids[i]
+			}
+		}
+		binary.BigEndian.PutUint32(hdr, live|0x80000000)
 	}
 	m.Header = append(m.Header, hdr...)
 	c := kit.Start("SendMsg", func() (interface{}, error) { return nil, w.sock.SendMsg(m) })
